@@ -20,11 +20,41 @@ import (
 	"time"
 
 	"github.com/google/uuid"
+	"github.com/spf13/cobra"
 	"github.com/sylabs/sif/v2/pkg/sif"
+	"github.com/sylabs/sif/v2/pkg/siftool"
 )
+
+// cliInProcMu: commands run inside this process (a program that embeds pkg/siftool, one command
+// tree per invocation) are run one at a time — the package keeps its flag values in package-level
+// variables, which is fine for its documented use and not something the workers of this harness
+// may share
+var cliInProcMu sync.Mutex
+
+// runSiftoolInProcess: the same command line through pkg/siftool's AddCommands on a fresh root
+// command, as an embedding program does.
+func runSiftoolInProcess(argv []string, so, se *bytes.Buffer) (err error) {
+	cliInProcMu.Lock()
+	defer cliInProcMu.Unlock()
+	defer func() {
+		if r := recover(); r != nil {
+			err = fmt.Errorf("panic: %v", r)
+			fmt.Fprintln(se, "panic:", r)
+		}
+	}()
+	root := &cobra.Command{Use: "siftool", SilenceUsage: true}
+	if aerr := siftool.AddCommands(root); aerr != nil {
+		return aerr
+	}
+	root.SetArgs(argv)
+	root.SetOut(so)
+	root.SetErr(se)
+	return root.Execute()
+}
 
 // CliOp is one siftool invocation.
 type CliOp struct {
+	InProc bool // run through pkg/siftool inside this process (an embedding program) instead of the built binary
 	Cmd string // new add del setprim dump info header list
 	Arg string // the <id> argument as typed
 	// add
@@ -355,10 +385,15 @@ func (e *Env) applyCli(op *Op) []string {
 	}
 	ctx, cancel := context.WithTimeout(context.Background(), 60*time.Second)
 	defer cancel()
-	cmd := exec.CommandContext(ctx, bin, c.argv(e.path, obj)...)
 	var so, se bytes.Buffer
-	cmd.Stdout, cmd.Stderr = &so, &se
-	err := cmd.Run()
+	var err error
+	if c.InProc {
+		err = runSiftoolInProcess(c.argv(e.path, obj), &so, &se)
+	} else {
+		cmd := exec.CommandContext(ctx, bin, c.argv(e.path, obj)...)
+		cmd.Stdout, cmd.Stderr = &so, &se
+		err = cmd.Run()
+	}
 	ok := err == nil
 	// the handle later observations use: a fresh read-only load
 	if f, lerr := sif.LoadContainerFromPath(e.path, sif.OptLoadWithFlag(os.O_RDONLY)); lerr == nil {
